@@ -302,6 +302,17 @@ def main (argv : List String) : IO UInt32 := do
       for b in List.range 256 do
         IO.println s!"{q} {b} {"".intercalate ((Gen.escapeByte [q] b).map VM.hex2)}"
     return 0
+  | ["packbools"] =>
+    -- the transcribed `pack_bools` on the lists given on stdin (one list of 0/1 digits per line), for comparison with Python
+    let stdin ← IO.getStdin
+    let mut go := true
+    while go do
+      let line ← stdin.getLine
+      if line.isEmpty then go := false
+      else
+        let bs := line.trimAscii.toString.toList.map (fun c => c.toNat - 48)
+        IO.println (" ".intercalate ((Gen.packBools bs).map toString))
+    return 0
   | _ =>
     IO.eprintln "usage: hidmodel batch <file> | vm <asm> [args...]"
     return 2
